@@ -506,7 +506,13 @@ def cholesky_band(l, mininf=0.0):
                 return (j, l)
             for i in range(kn):
                 lower[0:kn-i, j+1+i] -= x[i]*x[i:]
-        lower = lower[:, 0:n]
+        else:
+            #
+            # LAPACK found the matrix not positive definite although
+            # rounding let every pivot pass here: the weakest one is at fault.
+            #
+            warn('Matrix is not positive definite.', PydlutilsUserWarning)
+            return (int(np.argmin(lower[0, 0:n])), l)
     #
     # Restore padding.
     #
